@@ -199,14 +199,11 @@ theorem expandLoop_some {proj : Project} {rank : List Nat} (wf : WFacts proj ran
                 exact expandLoop_some wf hI e he (y2 :: r) nxt false (by simp) hl
       · exact ⟨_, expandLoop_notfound hfn hgo hcl hpe⟩
 
-theorem lookupModule_nocrash {proj : Project} {rank : List Nat} (wf : WFacts proj rank) {s : St} (hI : PdInv proj s)
-    (T : Path) : (lookupModule s T).2 = false := by
-  unfold lookupModule
-  simp only
+theorem findObject_nocrash {proj : Project} {rank : List Nat} (wf : WFacts proj rank) {s : St} (hI : PdInv proj s)
+    (T : Path) : Names.findObject (envOf s) T ≠ .indexError ∧ Names.findObject (envOf s) T ≠ .crash := by
   cases hof : Names.objFor (envOf s) T with
-  | some i => simp only; split <;> (try split) <;> rfl
+  | some i => unfold Names.findObject; simp [hof]
   | none =>
-    simp only
     have hfo : Names.findObject (envOf s) T ≠ .indexError ∧ Names.findObject (envOf s) T ≠ .crash := by
       suffices h : Names.findObjectOld (envOf s) T ≠ .indexError ∧ Names.findObjectOld (envOf s) T ≠ .crash from
         ⟨Names.findObject_ne_of_old (by simp) h.1, Names.findObject_ne_of_old (by simp) h.2⟩
@@ -238,6 +235,17 @@ theorem lookupModule_nocrash {proj : Project} {rank : List Nat} (wf : WFacts pro
             have : Names.expandName (envOf s) ro rest = some p2 := hp2
             simp only [this]
             cases Names.objFor (envOf s) p2 <;> simp
+    exact hfo
+
+theorem lookupModule_nocrash {proj : Project} {rank : List Nat} (wf : WFacts proj rank) {s : St} (hI : PdInv proj s)
+    (T : Path) : (lookupModule s T).2 = false := by
+  unfold lookupModule
+  simp only
+  cases hof : Names.objFor (envOf s) T with
+  | some i => simp only; split <;> (try split) <;> rfl
+  | none =>
+    simp only
+    have hfo := findObject_nocrash wf hI T
     cases hf : Names.findObject (envOf s) T with
     | obj i => simp only; split <;> (try split) <;> rfl
     | external => rfl
@@ -920,10 +928,20 @@ theorem enterClass_ok {proj : Project} {rank : List Nat} (wf : WFacts proj rank)
       (List.getElem?_eq_some_iff.1 ho).1
     have : Names.expandName (envOf s) ctx b = some p := hp
     rw [this] at hx; cases hx
+  have hcrash : (bs.map (fun b => Names.expandName (envOf s) ctx b)).any (baseCrash (envOf s)) = false := by
+    rw [Bool.eq_false_iff]
+    intro h
+    simp only [List.any_eq_true, List.mem_map] at h
+    obtain ⟨x, ⟨b, _, rfl⟩, hx⟩ := h
+    cases hxe : Names.expandName (envOf s) ctx b with
+    | none => simp [hxe, baseCrash] at hx
+    | some p =>
+      simp only [hxe, baseCrash, beq_iff_eq] at hx
+      exact (findObject_nocrash wf hI p).2 hx
   obtain ⟨ci, he, hci⟩ : ∃ ci : List (Nat × ClsInfo), enterClass ctx n bs s = { addObj s .cls n ctx with cinfo := ci } ∧
       ∀ e ∈ ci, e ∈ (addObj s .cls n ctx).cinfo ∨ ∀ b, some b ∈ e.2.objs → isClassObj s.reg b = true := by
     unfold enterClass
-    simp only [hexp, markBad_false]
+    simp only [hexp, hcrash, Bool.or_false, markBad_false]
     refine ⟨_, rfl, ?_⟩
     intro e hm
     rcases List.mem_append.1 hm with hm | hm
@@ -937,13 +955,13 @@ theorem enterClass_ok {proj : Project} {rank : List Nat} (wf : WFacts proj rank)
       | none => simp [hxe] at hx
       | some p =>
         simp only [hxe] at hx
-        cases hof : Names.objFor (envOf s) p with
-        | none => simp [hof] at hx
-        | some o =>
+        cases hof : Names.findObject (envOf s) p with
+        | obj o =>
           simp only [hof] at hx
           by_cases hcl : isClassObj s.reg o = true
           · simp only [hcl, if_true, Option.some.injEq] at hx; subst hx; exact hcl
           · simp [hcl] at hx
+        | _ => simp [hof] at hx
   have hcb2 : CBase { addObj s .cls n ctx with cinfo := ci } := by
     intro e hm b hbm
     rcases hci e hm with hold | hnewc
